@@ -15,22 +15,25 @@ type namedCond struct {
 	name   string
 	c      *rx.Cond
 	values map[string]val.V
+	names  map[string]string
 }
 
 func c05Conds(thorough bool) []namedCond {
 	one := map[string]val.V{":one": val.N("1")}
 	cs := []namedCond{
-		{"attribute_exists(h)", rx.Exists("h"), nil},
-		{"attribute_not_exists(h)", rx.NotExists("h"), nil},
-		{"a=:one", rx.Eq("a", ":one"), one},
-		{"a<>:one", rx.Cmp("<>", rx.OpP("a"), rx.OpV(":one")), one},
-		{"a=:one AND attribute_exists(b)", rx.And(rx.Eq("a", ":one"), rx.Exists("b")), one},
-		{"NOT a=:one", rx.Not(rx.Eq("a", ":one")), one},
+		{"attribute_exists(h)", rx.Exists("h"), nil, nil},
+		{"attribute_not_exists(h)", rx.NotExists("h"), nil, nil},
+		{"a=:one", rx.Eq("a", ":one"), one, nil},
+		{"a<>:one", rx.Cmp("<>", rx.OpP("a"), rx.OpV(":one")), one, nil},
+		{"a=:one AND attribute_exists(b)", rx.And(rx.Eq("a", ":one"), rx.Exists("b")), one, nil},
+		{"NOT a=:one", rx.Not(rx.Eq("a", ":one")), one, nil},
+		// two name placeholders in one condition (every supplied name must reach the evaluation)
+		{"#p=:one AND attribute_exists(#q)", rx.And(rx.Eq("#p", ":one"), rx.Exists("#q")), one, map[string]string{"#p": "a", "#q": "b"}},
 	}
 	if thorough {
 		cs = append(cs,
-			namedCond{"a>:one OR attribute_not_exists(a)", rx.Or(rx.Cmp(">", rx.OpP("a"), rx.OpV(":one")), rx.NotExists("a")), one},
-			namedCond{"attribute_exists(b) AND NOT a=:one", rx.And(rx.Exists("b"), rx.Not(rx.Eq("a", ":one"))), one},
+			namedCond{"a>:one OR attribute_not_exists(a)", rx.Or(rx.Cmp(">", rx.OpP("a"), rx.OpV(":one")), rx.NotExists("a")), one, nil},
+			namedCond{"attribute_exists(b) AND NOT a=:one", rx.And(rx.Exists("b"), rx.Not(rx.Eq("a", ":one"))), one, nil},
 		)
 	}
 	return cs
@@ -76,12 +79,12 @@ func c05Alphabet(keys []val.Item, conds []namedCond, withRet bool) func(m *model
 					if ret {
 						sfx += "[ALL_OLD on failure]"
 					}
-					add("Put"+sfx, drv.Op{K: drv.KPut, Item: with(k, "a", val.N("1"), "g", val.S("y")), Cond: c.c, Values: c.values, RetOnFail: ret})
-					add("Upd"+sfx, drv.Op{K: drv.KUpd, Key: k, Upd: rx.U(rx.Set("b", rx.RV(":y"))), Cond: c.c, Values: mergeVals(c.values, map[string]val.V{":y": val.S("y")}), RetOnFail: ret})
-					add("Del"+sfx, drv.Op{K: drv.KDel, Key: k, Cond: c.c, Values: c.values, RetOnFail: ret, AllOld: true})
+					add("Put"+sfx, drv.Op{K: drv.KPut, Item: with(k, "a", val.N("1"), "g", val.S("y")), Cond: c.c, Values: c.values, Names: c.names, RetOnFail: ret})
+					add("Upd"+sfx, drv.Op{K: drv.KUpd, Key: k, Upd: rx.U(rx.Set("b", rx.RV(":y"))), Cond: c.c, Values: mergeVals(c.values, map[string]val.V{":y": val.S("y")}), Names: c.names, RetOnFail: ret})
+					add("Del"+sfx, drv.Op{K: drv.KDel, Key: k, Cond: c.c, Values: c.values, Names: c.names, RetOnFail: ret, AllOld: true})
 					if ret {
 						// the two return options are independent request fields
-						add("Del"+sfx+"[ReturnValues NONE]", drv.Op{K: drv.KDel, Key: k, Cond: c.c, Values: c.values, RetOnFail: true})
+						add("Del"+sfx+"[ReturnValues NONE]", drv.Op{K: drv.KDel, Key: k, Cond: c.c, Values: c.values, Names: c.names, RetOnFail: true})
 					}
 				}
 			}
